@@ -5,7 +5,8 @@
 (* MaxSteps expansions: simple statements, returns, if / if-else, while,   *)
 (* for, nested blocks, with braced or bare (unbraced) arms.                *)
 (* Sentences are in prefix notation:                                       *)
-(*   s | r | if ARM | ife ARM ARM | wh ARM | for ARM | { LIST }            *)
+(*   s | n | r | if ARM | ife ARM ARM | wh ARM | for ARM | { LIST }        *)
+(*   (s assigns a local, n is a statement that assigns none: an assert)    *)
 (*   ARM  = { LIST } | bare STMT          LIST = sequence closed by "}"    *)
 (* The harness numbers the nodes, chooses which variables the simple       *)
 (* statements and conditions read and write (all patterns over two         *)
@@ -21,12 +22,12 @@ vars == <<form, steps>>
 NT == {"<List>", "<Stmt>", "<Arm>", "<LoopArm>", "<Stmt2>"}
 P == [nt \in NT |->
   CASE nt = "<List>" -> {<<"}">>, <<"<Stmt>", "<List>">>}
-    [] nt = "<Stmt>" -> {<<"s">>, <<"r">>, <<"if", "<Arm>">>, <<"ife", "<Arm>", "<Arm>">>, <<"wh", "<LoopArm>">>, <<"for", "<LoopArm>">>,
+    [] nt = "<Stmt>" -> {<<"s">>, <<"n">>, <<"r">>, <<"if", "<Arm>">>, <<"ife", "<Arm>", "<Arm>">>, <<"wh", "<LoopArm>">>, <<"for", "<LoopArm>">>,
                          <<"{", "<List>">>}
     [] nt = "<Arm>" -> {<<"{", "<List>">>, <<"bare", "<Stmt>">>}
     \* the grammar (lang.lalrpop ParseStatement2) does not accept a bare `if` as a loop body
     [] nt = "<LoopArm>" -> {<<"{", "<List>">>, <<"bare", "<Stmt2>">>}
-    [] nt = "<Stmt2>" -> {<<"s">>, <<"r">>, <<"wh", "<LoopArm>">>, <<"for", "<LoopArm>">>, <<"{", "<List>">>}]
+    [] nt = "<Stmt2>" -> {<<"s">>, <<"n">>, <<"r">>, <<"wh", "<LoopArm>">>, <<"for", "<LoopArm>">>, <<"{", "<List>">>}]
 FirstNT(f) == LET idx == {k \in 1..Len(f) : f[k] \in NT} IN
               IF idx = {} THEN 0 ELSE CHOOSE k \in idx : \A j \in idx : k <= j
 Complete(f) == FirstNT(f) = 0
